@@ -6,6 +6,77 @@ TRUSTED = ['CPython generator protocol (code after a yield runs at the next next
            'prefetch read-ahead is schedule dependent and bounded in C07, it has no exact segment structure here']
 
 
+class _Log:
+    """user function of one stage: logs its argument, optionally raises a given class for given arguments"""
+    def __init__(self, name, log, bad=(), exc=IndexError):
+        self.name, self.log, self.bad, self.exc = name, log, set(bad), exc
+
+    def __call__(self, x):
+        self.log.append((self.name, repr(x)))
+        if not isinstance(x, list) and x in self.bad:
+            raise self.exc(x)
+        return x
+
+
+def combined_access_support(ld, r, count):
+    """ds[i] on a concatenation / interspersion / zip applies user functions only to the examples that make up that one result:
+    exactly the applications (and the outcome) of the same access on the input that owns position i - also when earlier inputs drop
+    an incomplete last batch or contain user functions that raise IndexError / KeyError themselves"""
+    import warnings
+    fails = []
+    with warnings.catch_warnings():
+        warnings.simplefilter('ignore')
+        for _ in range(count):
+            log = []
+            nparts = r.choice([2, 2, 3])
+            parts = []
+            for pi in range(nparts):
+                m = r.randint(0, 5)
+                vals = list(range(100 * pi, 100 * pi + m))
+                bad = [v for v in vals if r.random() < 0.15]
+                exc = r.choice([IndexError, IndexError, KeyError, ValueError])
+                d = ld.new(vals).map(_Log(f'load{pi}', log, bad, exc))
+                kind = r.choice(['map', 'batch_drop', 'batch_drop', 'batch', 'slice', 'map2'])
+                if kind == 'batch_drop': d = d.batch(r.choice([2, 3]), drop_last=True)
+                elif kind == 'batch': d = d.batch(2)
+                elif kind == 'slice': d = d[::-1]
+                elif kind == 'map2': d = d.map(_Log(f'post{pi}', log))
+                parts.append(d)
+            comb = r.choice(['concatenate', 'concatenate', 'intersperse'])
+            try:
+                lens = [len(p) for p in parts]
+                if comb == 'intersperse' and 0 in lens:
+                    continue
+                ds = ld.concatenate(*parts) if comb == 'concatenate' else ld.intersperse(*parts)
+                total = len(ds)
+            except Exception:
+                continue
+
+            def access(d, i):
+                del log[:]
+                try:
+                    v = ('ok', repr(d[i]))
+                except Exception as e:
+                    v = ('raised', type(e).__name__)
+                return v, list(log)
+            if comb == 'concatenate':
+                owner = [(p, j) for p in range(nparts) for j in range(lens[p])]
+            else:
+                owner = [(di, ei) for (_pos, di, ei) in ds.order]
+            for i in list(range(total)) + [-1, total]:
+                got = access(ds, i)
+                if 0 <= i < total or (i == -1 and total):
+                    p, j = owner[i]
+                    want = access(parts[p], j)
+                    if got != want:
+                        fails.append(f'{comb} of {nparts} inputs with lengths {lens}: ds[{i}] gave {got[0]} after the applications {got[1]}; the same access on the owning input ({p}, position {j}) gives {want[0]} after {want[1]}'[:700])
+                        break
+                elif got[1] or got[0][0] != 'raised':
+                    fails.append(f'{comb} of {nparts} inputs with lengths {lens}: ds[{i}] is out of range but gave {got[0]} after running {got[1]}'[:500])
+                    break
+    return fails
+
+
 def run(tier):
     from .. import model_e, common
     res = model_b.run_b('C08', tier, want_prof=False)
@@ -14,6 +85,10 @@ def run(tier):
     for msg in fails[:5]:
         res['failures'].append(dict(kind='program', summary=msg, config=dict(kind='dataset_readahead')))
     res['coverage']['readahead_runs_through_dataset_api'] = runs
+    nca = 250 if tier == 'quick' else 4000
+    for msg in combined_access_support(common.import_impl(), common.rng_for('C08comb'), nca)[:5]:
+        res['failures'].append(dict(kind='program', summary=msg, config=dict(kind='combined_access')))
+    res['coverage']['combined_access_cases'] = nca
     return res
 
 
